@@ -83,6 +83,21 @@ def run(res, tier, seed, replay, clauses, spanner=False, ks='1,2,3', algos='appr
             facts = {'algo': call.get('algo', 'spanner'), 'wt': call.get('wt'), 'k': call.get('k'), 'clauses': mine, 'n': call.get('n'),
                      'edges': call.get('edges'), 'den': call.get('den')}
             res.violation(facts, {'trace_segment': rj['segment'], 'spec': 'Trace_Approx'})
+        if spanner:
+            # vacuity counter (not a verdict): how many observed spanners still contain a cycle / dropped something
+            cyc = drop = 0
+            with open(trace) as f:
+                for ln in f:
+                    if '"e":"Spanner"' not in ln:
+                        continue
+                    o = json.loads(ln)
+                    kept = [(k[1], k[2], 1) for k in o['kept']]
+                    if gens.csd({'n': o['n'], 'edges': kept}) > 0:
+                        cyc += 1
+                    if o['dropped']:
+                        drop += 1
+            res.cov['spanners_with_cycles'] = cyc
+            res.cov['spanners_with_dropped_edges'] = drop
         with open(trace) as f:
             buf = [json.loads(next(f)) for _ in range(min(300, sum(ev.values())))]
         best = []
